@@ -40,6 +40,13 @@ def main():
     rca, oa = sh(f"git -C {wt} apply {out / 'patch.diff'}")
     assert rca == 0, oa
     base = "skipped"
+    prev = out / "meta.json"
+    if prev.exists():
+        try:
+            # a re-confirmation after a check was strengthened keeps the baseline result of the first confirmation
+            base = json.loads(prev.read_text())["confirmed"]["baseline_with_change"]
+        except Exception:  # noqa
+            pass
     if "--no-baseline" not in sys.argv:
         rcb, ob = sh(f"/tmp/run_baseline_in.sh {wt}")
         base = [l for l in ob.splitlines() if l.startswith("baseline")][-1:] or [ob[-200:]]
